@@ -495,12 +495,43 @@ fn null_placement(lib: &Lib, k: usize) -> Option<(String, u64)> {
         }
         32 => ("mla_roarchive_info(NULL read callback, ..)", (lib.roarchive_info)(None, ctx, &mut [0u8; 8])),
         33 => ("mla_roarchive_info(read, ctx, NULL)", (lib.roarchive_info)(Some(read_cb), ctx, std::ptr::null_mut())),
+        34 | 35 => {
+            // mla_archive_new consumes (frees) the configuration even when it fails: the handle must be
+            // cleared then too, and using it again must be refused
+            (lib.config_default_new)(&mut cfg);
+            if k == 35 {
+                (lib.config_add_public_keys)(cfg, pk.as_ptr());
+                env.sched.at.insert(0, Ans::Fail); // the very first write (archive header) fails
+            }
+            let st = (lib.archive_new)(&mut cfg, Some(write_cb), Some(flush_cb), ctx, &mut ar);
+            if st == 0 {
+                ("mla_archive_new expected to fail (no recipient key / failing first write) but succeeded", 1)
+            } else if !cfg.is_null() {
+                ("failed mla_archive_new released the configuration but left the caller's handle set (dangling)", 0)
+            } else {
+                let mut ar2: *mut c_void = std::ptr::null_mut();
+                ("mla_archive_new(&cfg) again after a failed mla_archive_new", (lib.archive_new)(&mut cfg, Some(write_cb), Some(flush_cb), ctx, &mut ar2))
+            }
+        }
+        36 => {
+            // same for the reader side: extraction of garbage fails, the config handle must be cleared
+            (lib.reader_config_new)(&mut cfg);
+            env.src = b"not an archive".to_vec();
+            let st = (lib.roarchive_extract)(&mut cfg, Some(read_cb), Some(seek_cb), Some(file_cb), ctx);
+            if st == 0 {
+                ("mla_roarchive_extract of garbage succeeded", 0)
+            } else if !cfg.is_null() {
+                ("failed mla_roarchive_extract released the configuration but left the caller's handle set (dangling)", 0)
+            } else {
+                ("mla_roarchive_extract(&cfg) again after a failed extraction", (lib.roarchive_extract)(&mut cfg, Some(read_cb), Some(seek_cb), Some(file_cb), ctx))
+            }
+        }
         _ => return None,
     };
     Some((r.0.to_string(), r.1))
 }
 
-pub const N_NULL: usize = 34;
+pub const N_NULL: usize = 37;
 
 fn run_case(lib: &Lib, c: &Case, rep: &mut Report) {
     let replay = c.json();
@@ -711,7 +742,7 @@ pub fn run(started: Instant) -> i32 {
         rep,
         Meta {
             level: "model_checking",
-            rule: "libmla.so built from the working tree is loaded with dlopen and driven through its C entry points in worker processes. (1) every program of a bounded tree (and rich bases, flush placements) expressed as mla_archive_file_new/append/flush/close + mla_archive_close, with write callbacks that accept everything / 1 byte / 7 bytes per call; the collected bytes are read by the Rust ArchiveReader and compared with the reference model. (2) archives written by the Rust writer (4 layer combos) extracted with mla_roarchive_extract through read callbacks returning everything / 1 / 5 bytes and per-file write callbacks accepting partial buffers: exact bytes per file. (3) for a subset of (1)/(2), at EVERY callback invocation index: accept 1 byte, accept half, or report failure - a reported failure must surface as a non-success status no later than the close; 34 NULL-pointer / cleared-handle / double-close placements must return a non-success status. No crash, signal or panic across the FFI in any case. states = distinct (case, schedule)".to_string(),
+            rule: "libmla.so built from the working tree is loaded with dlopen and driven through its C entry points in worker processes. (1) every program of a bounded tree (and rich bases, flush placements) expressed as mla_archive_file_new/append/flush/close + mla_archive_close, with write callbacks that accept everything / 1 byte / 7 bytes per call; the collected bytes are read by the Rust ArchiveReader and compared with the reference model. (2) archives written by the Rust writer (4 layer combos) extracted with mla_roarchive_extract through read callbacks returning everything / 1 / 5 bytes and per-file write callbacks accepting partial buffers: exact bytes per file. (3) for a subset of (1)/(2), at EVERY callback invocation index: accept 1 byte, accept half, or report failure - a reported failure must surface as a non-success status no later than the close; 37 NULL-pointer / cleared-handle / double-close / handle-after-failed-call placements must return a non-success status. No crash, signal or panic across the FFI in any case. states = distinct (case, schedule)".to_string(),
             exhaustive: true,
             bounds: json!({"cases": cs.len(), "null_placements": N_NULL}),
             assumptions: vec!["the C API only offers the default layers (compress+encrypt) for writing".to_string(), "scaled constants".to_string()],
